@@ -9,12 +9,12 @@ import random
 from .labels import csort, enc
 
 NODE_U = {
-    "ints": [0, 1, 2, 3, 4, 5, -1, 7],
+    "ints": [0, 1, 2, 3, 4, -2, -1, 7],  # hash(-1) == hash(-2) in CPython
     "strs": ["a", "b", "c", "d", "e", "1", "2", "zz"],
     "mixed": [0, 1, 2, 3, "a", "b", "1", 4.0],
 }
 EDGE_U = {
-    "ints": [0, 1, 2, 3, 5, 8, 10, -2],
+    "ints": [0, 1, 2, 3, 5, 8, -1, -2],
     "strs": ["e0", "e1", "x", "0", "1", "7"],
     "mixed": [0, 1, "x", "1", 2.0, (0, 1), 5, 7],
 }
@@ -122,7 +122,8 @@ class Gen:
             return None
         k = self.r.choice(kinds)
         f = {"kind": k}
-        if k in ("none_member", "unhashable_member", "empty_in_bulk", "none_node", "unhashable_node"):
+        if k in ("none_member", "unhashable_member", "empty_in_bulk", "none_node", "unhashable_node",
+                 "attr_pairs", "attr_junk"):
             f["item"] = self.r.randrange(max(1, n_items))
             f["pos"] = self.r.randrange(4)
         if k == "dying":
@@ -280,7 +281,8 @@ class Gen:
     def g_H_add_edges_from(self, name, m, op):
         fmt = self.r.choice(self.cfg.get("bulk_fmts", [1, 1, 2, 3, 4, 5]))
         items = self._bulk_items(m, fmt)
-        fault = self.maybe_fault(["none_member", "unhashable_member", "dying", "empty_in_bulk"], len(items))
+        fault = self.maybe_fault(["none_member", "unhashable_member", "dying", "empty_in_bulk", "attr_pairs",
+                                  "attr_junk"], len(items))
         return self.rec(name, op, {"fmt": fmt, "items": items, "attr": self.attr(), "mtype": self.mtype(),
                                    "stream": self.stream()}, fault)
 
@@ -363,6 +365,22 @@ class Gen:
                                                    "mtype": "list"})
         return self.g_H_add_edge(name, m, "add_edge")
 
+    def g_H_near_dup_edge(self, name, m, op):
+        """an edge that differs from an existing one in exactly one member, preferably by a label
+        with the same hash (feeds duplicates / lookup / maximal / merge)"""
+        if m.edges:
+            e = self.r.choice(list(m.edges))
+            mem = csort(m.edges[e])
+            if mem:
+                k = self.r.randrange(len(mem))
+                others = [x for x in self.node_u() if x not in mem]
+                same_hash = [x for x in others if hash(x) == hash(mem[k])]
+                if same_hash or others:
+                    mem[k] = self.r.choice(same_hash or others)
+                    return self.rec(name, "add_edge", {"members": mem, "idx": None, "attr": self.attr(0.4, single=True),
+                                                       "mtype": "list"})
+        return self.g_H_add_edge(name, m, "add_edge")
+
     # ---------------------------------------------------------- DiHypergraph
     def g_DH_add_edge(self, name, m, op):
         tail = self.members(m, 0, 3)
@@ -379,7 +397,7 @@ class Gen:
     def g_DH_add_edges_from(self, name, m, op):
         fmt = self.r.choice(self.cfg.get("bulk_fmts", [1, 1, 2, 3, 4, 5]))
         items = self._bulk_items(m, fmt, dh=True)
-        fault = self.maybe_fault(["none_member", "unhashable_member", "dying"], len(items))
+        fault = self.maybe_fault(["none_member", "unhashable_member", "dying", "attr_pairs", "attr_junk"], len(items))
         return self.rec(name, op, {"fmt": fmt, "items": items, "attr": self.attr(), "mtype": self.mtype(),
                                    "stream": self.stream()}, fault)
 
@@ -440,7 +458,8 @@ class Gen:
         fmt = self.r.choice(self.cfg.get("bulk_fmts", [1, 1, 2, 3, 4, 5]))
         mo = self.r.choice([None, None, 1, 2, 3])
         items = self._sc_items(m, fmt, mo is not None)
-        fault = self.maybe_fault(["none_member", "unhashable_member", "dying", "empty_in_bulk"], len(items))
+        fault = self.maybe_fault(["none_member", "unhashable_member", "dying", "empty_in_bulk", "attr_pairs",
+                                  "attr_junk"], len(items))
         return self.rec(name, op, {"fmt": fmt, "items": items, "attr": self.attr(), "max_order": mo,
                                    "mtype": self.mtype(), "stream": self.stream()}, fault)
 
